@@ -7,49 +7,88 @@ VERIF = os.path.dirname(os.path.dirname(os.path.abspath(__file__)))
 
 TECH = {
  'C01': 'static analysis: algebraic value numbering over MIR (normal-form identity evaluate ≡ Σcᵢxⁱ), fold schema for Horner, rounding-depth counters',
+ 'C02': 'static analysis: value-numbered result of Piecewise::evaluate matched against the selection normal form (first-index schema, strict predicate, pass-through)',
+ 'C03': 'static analysis: one-step transfer of the evaluator (loop summary + search schemas) translated to a hand-proved reference step; representation, direction, predicate and paired-update rules',
+ 'C04': 'static analysis: algebraic value numbering (Hermite and Kruger normal-form identities) + stream alignment of the zip/chain/skip assembly pipeline',
+ 'C05': 'static analysis: guard normal form s01·s12 ≤ 0, positive-coefficient test on slope/secant ratios, imported C04 identities; monotonicity lemma on paper',
+ 'C06': 'static analysis: algebraic value numbering of segment/incr_linear + SCAN schema of the stateful map in linear()',
  'C07': 'static analysis: algebraic value numbering over MIR; normal-form identities for indefinite/integral lanes, d/dx identity, knot identity',
  'C08': 'static analysis: algebraic value numbering over MIR; lane normal forms, map/collect traversal schema, `end` value-number identity',
  'C09': 'static analysis: algebraic value numbering over MIR + formal derivation in Q[c][t, ln t, 1/t] (D(F) = p(ln t))',
+ 'C10': 'static analysis: algebraic value numbering (series coefficients, closed form, evaluate shape) + sound numeric bounds by directed-rounding interval arithmetic over the whole argument domain',
+ 'C11': 'static analysis: SCAN schema (stateful map summarised as a recurrence) for knot threading; sibling-iterator agreement; imported C07/C09 identities',
+ 'C12': 'static analysis: closure step transfer of evaluate_v on a symbolic cursor (first-index schema with rebase), lazy-map shape, pass-through',
+ 'C13': 'static analysis: merge-loop summary evaluated under the 12 guard assignments and compared with the reference merge table; Add/Sub sibling agreement',
  'C14': 'static analysis: algebraic value numbering over MIR; per-lane single-op rule over all 61 operator impls; evaluate∘op ≡ op∘evaluate identity',
+ 'C15': 'static analysis: FULL-TRAVERSAL loop schema + value-number identities (`end` untouched, piece = T-op(piece)) for Segment/Piecewise operators',
+ 'C16': 'static analysis: exhaustive panic-site inventory over MIR with per-site discharge (constant folding, dominance, Fourier–Motzkin linear entailment with inferred cursor invariants, documented-rejection table); NaN-taint on evaluator state',
  'C17': 'static analysis: conjunction/field-coverage/lane/tolerance rules over the value-numbered result of all 30 approx impls',
+ 'C18': 'static analysis: impl/derive symmetry over the type-checked program in both feature configurations, helper attributes from the expanded AST, writer/reader tables from generated MIR, type-level witness crate with compile-fail control',
+ 'C19': 'static analysis: dominance of the Ok result by the validity guard, sort typestate with comparator summary, SCAN/map pipeline shape, comparator NaN discharge',
 }
 
+P = 'DESIGN.md §4 '
 CHECKS = {
- 'C01': dict(cat='proof', ref='DESIGN.md §4 C01',
+ 'C01': dict(cat='proof', ref=P + 'C01',
    text='For Poly0..Poly8 the normal form of evaluate(self, x) computed from the MIR equals Σcᵢxⁱ as an identity over the reals (any evaluation scheme); PolyN is matched against the fold/Horner schema with index=exponent side conditions; Log<T> is T::evaluate(ln v) generically and Σcᵢ(ln v)ⁱ for the nine instantiations; only correctly rounded ops appear and the rounding depth is within 4(n+2). A proof over all real inputs under the standard floating-point model, not a sample.',
    note='Standard model of floating point without overflow/underflow (the property states this); libm ln within 1 ulp; FOLD-AFFINE schema induction is a paper proof (DESIGN §3.5).'),
- 'C07': dict(cat='proof', ref='DESIGN.md §4 C07',
+ 'C02': dict(cat='proof', ref=P + 'C02',
+   text='The value-numbered result of Piecewise::evaluate (T unbound, so for every piece type) must be Select(found(first index over the whole vector with end > x), T::evaluate(that piece, x), T::evaluate(last piece, x)) with x and the result unmodified. Given std\'s contract for position/find these five rules are jointly sufficient for the statement, for every length and every non-NaN x including breakpoints.',
+   note='std Iterator::position/find and slice::last contracts; non-empty, sorted, non-NaN input as the property states.'),
+ 'C03': dict(cat='other', ref=P + 'C03',
+   text='A histories property: what is decided statically is that the code implements the reference step (state (t, L), forward LINEAR-SCAN with end > x, backward last-index search with end ≤ x and split at index+1, initial state, L := x on every path, suffix representation, pass-through). The reference step\'s invariant and its agreement with direct evaluation on every history is a paper proof in DESIGN.md. Translation to a hand-proved reference, not a machine-checked induction.',
+   note='Paper proof of invariant (A)/(B); schema inductions; std slice/iterator contracts; sorted non-NaN breakpoints.'),
+ 'C04': dict(cat='proof', ref=P + 'C04',
+   text='segment() satisfies the four Hermite conditions and Kruger\'s coefficient formulas as identities in Q(x0,x1,y0,y1,f0,f1); f_dx is Select(s01·s12 ≤ 0, 0, harmonic mean); the zip/chain/skip pipeline is aligned: for the first, a middle and the last interval the closure receives (F[ι], K[ι], F[ι+1], K[ι+1]) with F the reference knot slopes (end rules 3/2·s − f/2 checked for both guard polarities); end = K[ι+1].x verbatim; N−1 pieces.',
+   note='Identities over the reals with x1 ≠ x0; stream model semantics; rounded-op count reported as the small multiple.'),
+ 'C05': dict(cat='proof', ref=P + 'C05',
+   text='Zero-slope guard is exactly s01·s12 ≤ 0 with value 0; with s01 = r·s12 the slope/secant ratios are 2r/(1+r) and 2/(1+r), proved to lie in (0,2) by a positive-coefficient test; end ratios in [1/2, 3/2]; the construction coincides with Kruger\'s formulas (imported C04 verdicts). Monotonicity on each interval then follows from the Fritsch–Carlson region lemma (paper).',
+   note='The region lemma is mathematics about the reference, trusted; underflow of s01·s12 outside the standard model.'),
+ 'C06': dict(cat='proof', ref=P + 'C06',
+   text='segment(k0,k1): end = k1.x verbatim, slope Select((k1.x−k0.x) < EPSILON, 0, dy/dx), P(k0.x) = k0.y on both arms and P(k1.x) = k1.y on the wide arm (normal-form identities); incr_linear forces x := max(prev.x, x), returns segment(prev, forced) and stores the forced knot; linear() is the SCAN of that step over knots[1..] from knots[0] with len−1 outputs.',
+   note='SCAN induction (running maximum) on paper; f64::max model.'),
+ 'C07': dict(cat='proof', ref=P + 'C07',
    text='indefinite() lanes are [0, c0, c1/2, …] with at most one rounding each; d/dx of the returned polynomial equals p; integral(knot) evaluates to knot.y at knot.x and differs from indefinite() in the constant only; derivative∘indefinite returns p with ≤ 2 roundings; Segment delegates keeping `end` — all as normal-form identities for every coefficient vector and knot.',
    note='Identities over the reals; rounding is counted (ops per coefficient), not bounded numerically; overflow/underflow excluded.'),
- 'C08': dict(cat='proof', ref='DESIGN.md §4 C08',
+ 'C08': dict(cat='proof', ref=P + 'C08',
    text='derivative() lanes are (i+1)·c_{i+1} with one rounding (none for powers of two); Σdᵢxⁱ ≡ p′(x); Segment::derivative keeps `end` verbatim; Piecewise::derivative is collect(map(iter(all segments))) with piece ι ↦ segments[ι].derivative(), so count, order and ends are unchanged for every length.',
    note='Map/collect semantics of std iterators (model); induction over the traversal schema on paper.'),
- 'C09': dict(cat='proof', ref='DESIGN.md §4 C09',
+ 'C09': dict(cat='proof', ref=P + 'C09',
    text='For each of the nine degrees F(t) = evaluate(indefinite(Log p), t) is normalised in Q[c][t, L, 1/t]; the rule checks D(F) = Σpᵢ Lⁱ with DL = 1/t (quartic: closed-form branch with exp(−L) = 1/t) and F(knot.x) = knot.y for integral(knot). This quantifies over every evaluation point at once, which is what exposed the missing factor t (defect D1, fixed).',
    note='Real-number identity; the quartic series branch is tied to the closed form by C10; rounding not bounded here.'),
- 'C14': dict(cat='proof', ref='DESIGN.md §4 C14',
-   text='All 61 Mul/MulAssign/Neg/Add/Sub/Translate impls on function forms are enumerated from the impl table (floors per trait); every output number must be exactly the single correctly rounded op on the matching lane (generic T: the uninterpreted T-op on the matching operands, plus all nine instantiations); evaluate(op f, x) ≡ op(evaluate(f, x)) as a normal-form identity; PolyN::translate is checked on both the empty and non-empty edge.',
+ 'C10': dict(cat='proof', ref=P + 'C10',
+   text='Symbolic: all 16 series coefficients equal 1/(m+5)!, closed form ≡ (eˣ−T₄)/x⁵, thresholds lo<0<hi read from the code, evaluate ≡ k + v(Σcⱼxʲ + u·R̂·x⁵), F(1) = k. Numeric, over the whole domain x ∈ [−709.79, 744.45] by directed-rounding arithmetic on monotone bounds: truncation/R(lo), rounding depth × condition on the series interval, cancellation amplification plus exp/ln error terms on the closed-form intervals; total ≤ 1e-12 (currently 2.4e-13). The exp-argument range rule reports the overflow for subnormal v as known finding D3.',
+   note='libm exp/ln ≤ 1 ulp; standard model; no intermediate overflow (violated for subnormal v: known finding D3, listed in known_findings.json).'),
+ 'C11': dict(cat='proof', ref=P + 'C11',
+   text='The closure of integral_iter(_ref) is summarised once on a symbolic running knot: out = seg.integral(σ), σ′ = (out.end, out.evaluate(out.end)); Piecewise::integral scans the whole vector from knot0; indefinite is [S₀.indefinite()] ++ scan(S[1..], (end₀, F₀(end₀))), empty ⇒ empty; by-value and by-reference iterators have identical step summaries; the per-piece antiderivative/knot identities of C07 and C09 are imported for every piece type.',
+   note='SCAN induction (continuity at every breakpoint) on paper; per-piece identities over the reals.'),
+ 'C12': dict(cat='proof', ref=P + 'C12',
+   text='One-step transfer of the evaluate_v closure on a symbolic cursor: prev′ = Select(found(first i in segments[prev..] with x < end), i + prev (rebase on the same value number), len−1); output = T::evaluate(segments[prev′].poly, x) unmodified; cursor starts at 0 and is the only mutated capture; the result is a lazy map over the argument iterator.',
+   note='Monotone-cursor induction on paper; std position/map contracts.'),
+ 'C13': dict(cat='other', ref=P + 'C13',
+   text='Each merge loop is summarised once (carried: i, j, res); its transfer is evaluated under the 12 assignments of (cmp(a.end,b.end), a_last, b_last) and compared row by row with the reference table (cursor increments, emitted end, exit iff a_last ∧ b_last); exactly one piece op(&a.poly, &b.poly) in operand order is pushed per iteration; Add and Sub tables agree. The reference merge invariant (J1–J4) is a paper proof.',
+   note='Paper proof of the merge invariant and the ≤ m+n−1 bound; non-empty sorted non-NaN operands.'),
+ 'C14': dict(cat='proof', ref=P + 'C14',
+   text='All 61 Mul/MulAssign/Neg/Add/Sub/Translate impls on function forms are enumerated from the impl table (floors per trait); every output number must be exactly the single correctly rounded op on the matching lane (generic T: the uninterpreted T-op on the matching operands, plus all nine instantiations); evaluate(op f, x) ≡ op(evaluate(f, x)) as a normal-form identity; PolyN::translate is decided on the resulting coefficient sequence for the empty and the non-empty case.',
    note='IEEE-754 commutativity of + and ×; negation and ×(−1) exact; Scalar instantiated with f64 only.'),
- 'C17': dict(cat='proof', ref='DESIGN.md §4 C17',
+ 'C15': dict(cat='proof', ref=P + 'C15',
+   text='Segment Mul/MulAssign(value and &mut)/Translate: end′ is the value number of end, poly′ is exactly T\'s operation on poly. Piecewise Mul/MulAssign/Neg/Translate: the loop matches FULL-TRAVERSAL (whole vector, unconditional, one exit, element-local point update) or the equivalent for_each, and the element transfer is Segment{end unchanged, poly = T-op(poly)}; hence count, order and every breakpoint are bit-identical for every length.',
+   note='FULL-TRAVERSAL induction on paper; std IterMut contract.'),
+ 'C16': dict(cat='other', ref=P + 'C16 and §3.6',
+   text='(a) The evaluator\'s step transfer is evaluated under "x is NaN" (every ordered comparison with x false): tail and last_evaluation must be unchanged (or reset to an initial state) and the result a plain piece evaluation — this exposed defect D2 (fixed). (b) Exhaustive inventory of every panic-capable site in all 240 hand-written bodies (267 constant-index checks folded; 46 others): each must be discharged by dominance, by Fourier–Motzkin linear entailment from the path facts with inferred cursor invariants, by the NaN-freedom argument, or be one of the documented rejections; any new unwrap/index/assert/arithmetic site is a finding.',
+   note='Models state std panic preconditions completely; allocation failure aborts; T\'s own methods are uninterpreted (in-crate instantiations are analysed separately).'),
+ 'C17': dict(cat='proof', ref=P + 'C17',
    text='All 30 AbsDiffEq/RelativeEq impls: the boolean result is a pure conjunction with exactly one conjunct per field of the ADT (from the ADT table), each comparing self.f with other.f through the same relation with eps/max_relative passed through unchanged; arrays/Vec fields go through the slice impl that carries the length check; default_* forward the f64 defaults.',
    note='approx 0.5.1 f64 and slice impls are trusted (modelled as uninterpreted relations).'),
+ 'C18': dict(cat='other', ref=P + 'C18',
+   text='Writer/reader agreement decided structurally in both feature configurations: for each of the 15 serialisable ADTs both serde impls (and both borsh impls under the feature) exist and expand from derives on that item; no asymmetric or lossy helper attribute on item or field (expanded AST); the generated writer and reader tables (names, counts) agree; a witness crate type-checks Serialize+DeserializeOwned / BorshSerialize+BorshDeserialize for 26 instantiations, with a compile-fail control in the thorough tier.',
+   note='serde_derive/borsh-derive generate inverse code for attribute-free structs; format-level f64 round-tripping belongs to the serde format.'),
+ 'C19': dict(cat='proof', ref=P + 'C19',
+   text='The Ok alternative of the value-numbered result is guarded by (ends non-empty ∧ ∀ is_normal); the vector consumed by the piece pipeline is sort_by(ends, ascending partial_cmp) of that same vector; every piece takes its end verbatim from the sorted vector, Ok only if every piece generated; the comparator\'s unwrap is dominated by the is_normal check; no other panic-capable site exists in the impl.',
+   note='arbitrary::Unstructured and T::arbitrary are total; sort_by and fallible collect contracts.'),
 }
 
-PENDING = {
- 'C02': 'selector rules (FIRST-INDEX schema, PRED, PASS) under construction',
- 'C03': 'evaluator step translation (LINEAR-SCAN / last-index schemas) under construction',
- 'C04': 'Hermite identities and stream alignment under construction',
- 'C05': 'zero-guard / ratio positivity rules under construction',
- 'C06': 'linear segment identities and SCAN schema under construction',
- 'C10': 'series/closed-form identities and interval bounds under construction',
- 'C11': 'knot-threading SCAN rules under construction',
- 'C12': 'evaluate_v closure transfer rules under construction',
- 'C13': 'merge-step table rules under construction',
- 'C15': 'Segment/Piecewise traversal and writes rules under construction',
- 'C16': 'panic-site inventory and NaN-taint under construction',
- 'C18': 'serde/borsh symmetry rules and witness crate under construction',
- 'C19': 'Arbitrary guard/sort/pipeline rules under construction',
-}
+PENDING = {}
 
 
 def main():
